@@ -18,7 +18,7 @@ func init() {
 		Explanation: "Decides the update/removal mechanism, not the semantic equivalence of two configurations: R1 the directives that take a list of ids or ranges process the whole list (inside the list loop only failures return); " +
 			"R2 no update is applied to a copy: a rule (or range, or target) copied out of its container is neither handed by address to updating code nor modified and dropped without being written back (copy-loss analysis over every module function); " +
 			"R3 the removal helpers are nil-safe (C07.R3) and order preserving (C01.R5); R4 run-time exclusions: the per-transaction lists are reset for every transaction, written only by the Transaction helpers, consulted before each rule (C08.R4), keyed by the parent id for chain members, and ctl handlers visit every rule of the group; " +
-			"R5 removal predicates: DeleteByRange and the run-time range test are inclusive at both ends, DeleteByTag/ByMsg keep exactly the non-matching rules, ClearDisruptiveActions filters by the disruptive type only, and target exceptions are attached to every occurrence of the variable; R6 the mutators of the rule container agree on the state they maintain (every function that changes RuleGroup.rules writes the same set of RuleGroup fields, so an index or cache over the rules cannot be kept current by some removal paths and forgotten by others), and the helper used by action updates (ClearDisruptiveActions) writes nothing but the action list (status, metadata and transformations of the rule survive an update); rules selected by tag are updated where they were found, never through an id lookup.",
+			"R5 removal predicates: DeleteByRange and the run-time range test are inclusive at both ends, DeleteByTag/ByMsg keep exactly the non-matching rules, ClearDisruptiveActions filters by the disruptive type only, and target exceptions are attached to every occurrence of the variable; R6 the mutators of the rule container agree on the state they maintain (every function that changes RuleGroup.rules writes the same set of RuleGroup fields, so an index or cache over the rules cannot be kept current by some removal paths and forgotten by others), and the helper used by action updates (ClearDisruptiveActions) writes nothing but the action list (status, metadata and transformations of the rule survive an update); rules selected by tag are updated where they were found, never through an id lookup. R1 also: within one iteration of the id loop of SecRuleUpdateActionById/TargetById no path passes two application sites (one update per id or range written). R5 also: Macro.String returns the field compile stores from its input (the text by-message removals compare).",
 		NotDecided: []string{
 			"semantic equivalence of the updated and the rewritten configuration over all requests",
 			"parsing of the id/range/target syntax itself (C16)",
